@@ -67,9 +67,14 @@ def newer(a, b):
     return (not os.path.exists(b)) or os.path.getmtime(a) > os.path.getmtime(b)
 
 
-def build(log=None):
-    """regenerate coq/gen from /repo, make (full .vo build, -k so independent files still build),
-    extract, build the driver.  Returns dict(make_rc, make_tail, translate_rc, translate_msg)."""
+EXTRACT_DEPS = ["Base.vo", "Engine.vo", "Cache.vo", "AbnfRead.vo", "Registry.vo", "GenTypes.vo", "Loader.vo", "gen/GenTables.vo",
+                "gen/GenBundled.vo", "Bundled.vo", "Visit.vo", "EngineProg.vo", "Visitor.vo", "Compile.vo", "RfcSpec.vo"]
+
+
+def build(log=None, targets=None):
+    """regenerate coq/gen from /repo, make (full .vo build of what the property needs: its property files with all
+    their dependencies + what the extraction needs; -k so independent files still build), extract, build the driver.
+    targets=None builds everything.  Returns dict(make_rc, make_tail, translate_rc, translate_msg)."""
     out = {"translate_rc": 0, "translate_msg": "", "make_rc": 0, "make_tail": ""}
     with Lock("build.lock"):
         tr = os.path.join(VERIF, "tools", "translate.py")
@@ -79,7 +84,8 @@ def build(log=None):
             out["translate_msg"] = (so + se)[-4000:]
         if newer(os.path.join(COQ, "_CoqProject"), os.path.join(COQ, "Makefile")):
             sh("coq_makefile -f _CoqProject -o Makefile", cwd=COQ, timeout=120)
-        rc, so, se = sh("timeout 3000 make -k -j16 2>&1", cwd=COQ, timeout=3100)
+        tg = "" if targets is None else " ".join(EXTRACT_DEPS + [t[:-2] + ".vo" for t in targets])
+        rc, so, se = sh(f"timeout 3000 make -k -j16 {tg} 2>&1", cwd=COQ, timeout=3100)
         out["make_rc"] = rc
         out["make_tail"] = so[-6000:]
         drv = os.path.join(OCAML, "driver")
